@@ -39,6 +39,10 @@ CLAIMED = {
  'C07': ('exploration', 'planted-reference completeness monitor over generated HTML documents through the real preprocessor+postprocessor stages, expected URLs from an independent RFC 3986 resolver; configuration matrix over disable-html-tag / capture-alternate-pages / disable-assets-capture',
          'Each generated document plants references (unique token each) in img/script/link/source/video/audio attributes, srcset lists, <style> and style= url(); after the real stages ran, every required reference must have left the preprocessor as a request for exactly the expected absolute URL, and every anchor must have been handed to the queue.',
          'Fabricated fetches; documents sample the attribute x quoting x reference-form x nesting space; no <base>.', '4/C07'),
+
+ 'C08': ('exploration', 'history monitor at the boundary of the real preprocessor stage with the real LevelDB seen-store: real-time order from stamps around each pass, reference canonical URLs from an independent resolver',
+         'Histories of 30-50 seeds with heavily overlapping assets (10 URLs x 8 spellings, nested assets, redirects, pool URLs reused as seeds), sequential and with 4-8 seeds in flight; a check that started after another check of the same URL ended must be skipped (modulo seed-over-asset promotion), a skipped item needs a check that could have recorded it, and no URL is fetched by two non-seed nodes of a tree.',
+         'Local seen-store only so far (HQ store needs the HQ double); pool spellings are from a safe alphabet.', '4/C08'),
 }
 NOT_BUILT = 'check not built yet in this session (planned, see DESIGN.md section 4)'
 
